@@ -228,7 +228,13 @@ fn mutate(rng: &mut Rng, m: &mut Module, counter: &mut usize) -> String {
 
 fn gen(rng: &mut Rng, _sub: u64) -> Workload {
     let warn_class = rng.chance(1, 12);
+    // measured: a std-using run takes minutes under the scheduler (every didOpen/didChange re-traverses the std token map);
+    // the class is therefore off unless C26_STD=1 is set (exploratory use only)
+    let with_std = std::env::var("C26_STD").is_ok() && rng.chance(1, 16);
     let mut p = gen_project(rng, warn_class);
+    if with_std {
+        p.root.items.push(Item::Fn { name: "uses_std".into(), ret_bool: false, body: "let mut v: Vec<u64> = Vec::new();\n    v.push(3);\n    let o: Option<u64> = v.get(0);\n    match o {\n        Some(x) => x,\n        None => 0,\n    }".into() });
+    }
     let base_names: Vec<String> = p.subs.iter().map(|m| m.name.clone()).collect();
     let mod_names = |p: &Project| -> Vec<String> {
         let mut v = base_names.clone();
@@ -293,7 +299,14 @@ fn gen(rng: &mut Rng, _sub: u64) -> Workload {
             }
         }
     }
-    Workload { files, manifest: crate::c24::MANIFEST.to_string(), events, gc: rng.chance(1, 2) }
+    // class STD (1 run in 16): the project depends on the real standard library (first compile takes seconds, later
+    // ones reuse the cached std programs) and the root uses std types
+    let manifest = if with_std {
+        "[project]\nauthors = [\"sim\"]\nentry = \"lib.sw\"\nlicense = \"Apache-2.0\"\nname = \"simlib\"\n\n[dependencies]\nstd = { path = \"/repo/sway-lib-std\" }\n".to_string()
+    } else {
+        crate::c24::MANIFEST.to_string()
+    };
+    Workload { files, manifest, events, gc: rng.chance(1, 2) }
 }
 
 fn is_quiescent(wl: &Workload) -> bool {
@@ -442,6 +455,9 @@ fn probes(wl: &Workload, r: &SimResult) -> Vec<String> {
     }
     if wl.files.len() > 2 {
         p.push("three-or-more-files".into());
+    }
+    if wl.manifest.contains("sway-lib-std") {
+        p.push("class-STD(project uses the real standard library)".into());
     }
     if wl.files.iter().any(|f| f.1.contains("_NotSnake")) {
         p.push("class-W(module with a warning of its own)".into());
